@@ -199,7 +199,7 @@ prop(
     module="Aquatic.Props.C18",
     extra_modules=["Aquatic.Props.C06", "Aquatic.Props.C16"],
     technique="Lean 4 proof (reply sizes derived from the codec model; the start-up validation implies every reply of an accepted configuration fits the send buffer of the back end, refuses nothing that fits, accepts the defaults; HTTP frame carries the whole body for any length) + socket-level boundary runs against the real tracker process",
-    runs=[dict(harness="udpnet", driver="udpnet", quick=dict(cases=6), thorough=dict(cases=48)),
+    runs=[dict(harness="udpnet", driver="udpnet", quick={"cases": 7, "boundaries-first": 1}, thorough={"cases": 48, "boundaries-first": 1}),
           dict(harness="httpnet", driver="store", quick=dict(cases=8), thorough=dict(cases=80))],
     nontrivial=["big", "refused", "scrape-nonzero", "scrape-truncated", "uring>cap"],
     level_text="Theorems: the length of every serialised UDP reply equals the formula used (from the regenerated layouts); for every max_response_peers / max_scrape_torrents the start-up check accepts, every announce reply with at most that many peers of either family and every scrape reply with at most that many entries is no longer than the mio / io_uring send buffer (regenerated sizes); a configuration is refused iff one of its two worst-case replies does not fit; defaults accepted; exact boundaries 454/455 (mio), 112/113 and 170/171 (io_uring); the HTTP frame carries the complete body for every body length. Tie: trackers started at and just over the boundary (must deliver the largest IPv6 announce reply whole / must refuse to start), HTTP scrapes of 56..64 raw hashes under default limits. Receive side of io_uring: finding F6.",
